@@ -31,9 +31,10 @@ RULE += ' ' + 'The argument alphabet includes long (2 KB) str / bytes arguments 
 RULE += ' ' + 'Keyword names include parameter names of the memoizing machinery (ignore, typed, base, name, expire, tag, key, args, kwargs, self, func, default, retry); one seed in 97 passes the same argument once as one object twice and once as two equal objects.'
 RULE += ' ' + 'The probe function records the arguments it was called with: everything the caller passed, ignored ones included.'
 RULE += ' ' + 'Arguments include dicts in two insertion orders, lists, tuples and tuples of pairs.'
+RULE += ' ' + 'One seed in 97 decorates functools.partial objects of one function or instances of one callable class.'
 ASSUMPTIONS = ['the probe function ignores the arguments listed in `ignore` (a function whose result depends on ignored arguments is outside the contract)',
                'without typed=True, numerically equal arguments (1, 1.0, True) may or may not share an entry; results are compared with ==']
-PROBES = ('hits', 'expired_recompute', 'stampede_threads', 'typed_runs', 'ignore_runs', 'functions', 'raising_calls', 'falsy_results', 'keys_compared_across_interpreters', 'identity_pairs')
+PROBES = ('hits', 'expired_recompute', 'stampede_threads', 'typed_runs', 'ignore_runs', 'functions', 'raising_calls', 'falsy_results', 'keys_compared_across_interpreters', 'identity_pairs', 'callable_objects')
 TECHNIQUE = 'deterministic simulation (virtual clock for expiry, seeded scheduler and random() for memoize_stampede) + differential checking against the undecorated function with an execution counter'
 LEVEL_TEXT = ('seeded exploration of call-signature sequences x decorator options under a controlled clock; key collisions show up as '
               'wrong results because the probe function encodes its call signature in its result; stampede recomputation is explored '
@@ -88,6 +89,11 @@ def gen_case(seed, tier):
             calls.append({'args': [rng.choice(ALPHA) for _ in range(rng.randint(0, 2))], 'kwargs': {n: rng.choice(ALPHA) for n in names}})
         return {'seed': seed, 'cfg': {'wrap': 'xproc', 'ignore': rng.choice(([], [0], ['a'], ['q', 'zeta'])),
                                       'hashseeds': rng.sample(range(1, 1000), 2)}, 'calls': calls, 'prog': []}
+    if seed % 97 == 15:
+        # callables that are no plain functions (functools.partial objects of one function, instances of one callable class):
+        # either the decorator refuses them, or each gets entries of its own
+        return {'seed': seed, 'cfg': {'wrap': 'callables', 'target': rng.choice(('cache', 'fanout', 'index')), 'typed': rng.random() < 0.5,
+                                      'what': rng.choice(('partial', 'instance')), 'named': rng.random() < 0.3}, 'calls': [], 'prog': []}
     if seed % 97 == 14:
         # the same arguments, once as one object passed twice and once as two equal objects
         return {'seed': seed, 'cfg': {'wrap': 'identity', 'target': rng.choice(('cache', 'fanout', 'index')), 'typed': rng.random() < 0.5,
@@ -576,7 +582,56 @@ def run_identity(case):
             'virtual_s': 0.0, 'nontrivial': True, 'outcome': {'calls': 2}}
 
 
+def run_callables(case):
+    import functools
+    cfg = case['cfg']
+    violations = []
+    world = World(case['seed'], clock={'mode': 'frozen'}, yield_clock=False)
+    try:
+        dc = world.dc
+        if cfg['target'] == 'fanout':
+            store = dc.FanoutCache(world.path('f'), shards=3)
+        elif cfg['target'] == 'index':
+            store = dc.Index(world.path('i'))
+        else:
+            store = dc.Cache(world.path('c'))
+
+        def power(base, exponent):
+            return base ** exponent
+
+        class Scaler:
+            def __init__(self, factor):
+                self.factor = factor
+
+            def __call__(self, x):
+                return x * self.factor
+        plain = [functools.partial(power, exponent=2), functools.partial(power, exponent=3)] if cfg['what'] == 'partial' else [Scaler(2), Scaler(10)]
+        wrapped = []
+        for n, fn in enumerate(plain):
+            try:
+                kw = {'name': 'callable-%d' % n} if cfg['named'] else {}
+                wrapped.append(store.memoize(typed=cfg['typed'], **kw)(fn))
+            except Exception:  # noqa
+                wrapped.append(None)      # refused at decoration: nothing is memoized, nothing can be shared
+        for x in (3, 4, 3):
+            for fn, w in zip(plain, wrapped):
+                if w is None:
+                    continue
+                got, want = w(x), fn(x)
+                if got != want and not violations:
+                    violations.append({'rule': 'C16/wrong-result', 'sig': 'callables-share-entries',
+                                       'detail': 'memoized %s object called with %r returned %r, the object itself returns %r' % (cfg['what'], x, got, want)})
+        (getattr(store, 'close', None) or store.cache.close)()
+    finally:
+        world.close()
+    digest = hashlib.sha256(json.dumps(case['cfg'], sort_keys=True).encode()).hexdigest()
+    return {'violations': violations, 'digest': digest, 'steps': 6, 'switches': 0, 'fired': {}, 'probes': {'callable_objects': 1},
+            'virtual_s': 0.0, 'nontrivial': True, 'outcome': {'calls': 6}}
+
+
 def run_case(case):
+    if case['cfg']['wrap'] == 'callables':
+        return run_callables(case)
     if case['cfg']['wrap'] == 'xproc':
         return run_xproc(case)
     if case['cfg']['wrap'] == 'identity':
